@@ -85,7 +85,8 @@ class VMFMMTrainer:
                 /= np.einsum("...kn->...n", initialization)[..., None, :]
 
         if saliency is None:
-            saliency = np.ones_like(initialization[..., 0, :])
+            saliency = np.ones_like(
+                initialization[..., 0, :], dtype=y.real.dtype)
 
         return self._fit(
             y,
